@@ -150,7 +150,8 @@ def run_tlc(module, cfg, workdir, *, workers=16, timeout=600, dump=None, dot=Non
     java = ["java", "-XX:+UseParallelGC", "-Xmx%s" % heap, "-DTLA-Library=%s" % libs]
     if deque:
         java.append("-Dtlc2.tool.queue.IStateQueue=StateDeque")
-    cmd = java + ["-cp", JAR + os.pathsep + "/opt/veriftools/tla/CommunityModules-deps.jar", "tlc2.TLC", "-workers", str(workers), "-metadir", meta,
+    # `timeout` also bounds the JVM when the Python parent dies (an orphaned TLC once filled the disk)
+    cmd = ["timeout", "-k", "10", str(int(timeout) + 120)] + java + ["-cp", JAR + os.pathsep + "/opt/veriftools/tla/CommunityModules-deps.jar", "tlc2.TLC", "-workers", str(workers), "-metadir", meta,
                   "-noGenerateSpecTE", "-config", cfg_path]
     if deadlock is False:
         cmd.append("-deadlock")          # -deadlock = do NOT check for deadlock
